@@ -408,7 +408,7 @@ func main() {
 		return
 	}
 	start, _ := strconv.Atoi(os.Getenv("VERIF_START"))
-	d := Defaults{Table: ".config", Row: ".fullname", Col: ".file", Filter: "*", Alpha: "0.05", Confidence: "0.95", Format: "text"}
+	d := Defaults{Table: ".config", Row: ".fullname", Col: ".file", Filter: "*", Alpha: "0.05", Confidence: "0.95", Format: "text", Src: "help"}
 	if plainBin != "" {
 		rd, err := readDefaults(plainBin)
 		if err != nil {
@@ -421,8 +421,8 @@ func main() {
 	if start == 0 {
 		// case 0: the flag defaults of the real command
 		hx.Printf("case 0 kind=defaults tag=defaults\n")
-		hx.Printf("obs 0 table=%s row=%s col=%s ignore=%s filter=%s alpha=%s confidence=%s format=%s\n", hx.HexS(d.Table), hx.HexS(d.Row), hx.HexS(d.Col),
-			hx.HexS(d.Ignore), hx.HexS(d.Filter), hx.HexS(d.Alpha), hx.HexS(d.Confidence), hx.HexS(d.Format))
+		hx.Printf("obs 0 table=%s row=%s col=%s ignore=%s filter=%s alpha=%s confidence=%s format=%s src=%s\n", hx.HexS(d.Table), hx.HexS(d.Row), hx.HexS(d.Col),
+			hx.HexS(d.Ignore), hx.HexS(d.Filter), hx.HexS(d.Alpha), hx.HexS(d.Confidence), hx.HexS(d.Format), d.Src)
 	}
 	shard, _ := strconv.Atoi(os.Getenv("VERIF_SHARD"))
 	nsh, _ := strconv.Atoi(os.Getenv("VERIF_NSHARDS"))
